@@ -246,7 +246,13 @@ func cStrList(xs []string) string {
 // treeTerm encodes the directory as a Model.LocalSync.node. The contents of directories named ".git" or
 // "objects" are elided (the generator never nests repositories inside them).
 func lsTreeTerm(t *testing.T, dir string, name string) string {
-	if name == ".git" || name == "objects" {
+	if name == "objects" {
+		return "(NDir [])"
+	}
+	if name == ".git" { // only what discovery looks at when such a directory is given as a ROOT: its objects directory
+		if st, err := os.Stat(filepath.Join(dir, "objects")); err == nil && st.IsDir() {
+			return "(NDir [" + cPair(cStr("objects"), "(NDir [])") + "])"
+		}
 		return "(NDir [])"
 	}
 	ents, err := os.ReadDir(dir)
@@ -524,7 +530,8 @@ func lsStatus(err error) uint64 {
 		return 1
 	case strings.Contains(s, "was discovered by more than one root"):
 		return 2
-	case strings.HasPrefix(s, "stat root") || strings.Contains(s, "is not a directory") || strings.HasPrefix(s, "duplicate root"):
+	case strings.HasPrefix(s, "stat root") || strings.Contains(s, "is not a directory") || strings.HasPrefix(s, "duplicate root") ||
+		strings.Contains(s, "cannot derive a repository name"):
 		return 3
 	case strings.HasPrefix(s, "read metadata from") || strings.Contains(s, "repositories, want 1"):
 		return 4
@@ -663,6 +670,9 @@ func (e *lsEnv) independentDiscover(roots []string) (specs []lsSpec, colls []lsC
 			}
 		}
 		if hit {
+			if name == "" { // a root called ".git" that is a bare repository: no name can be derived
+				rootErr = true
+			}
 			specs = append(specs, lsSpec{name, e.canon(dir), ri})
 			return
 		}
@@ -675,6 +685,9 @@ func (e *lsEnv) independentDiscover(roots []string) (specs []lsSpec, colls []lsC
 	}
 	for i, r := range roots {
 		rec(i, e.w+r, e.w+r)
+	}
+	if rootErr {
+		return nil, nil, true
 	}
 	for i := range specs {
 		for j := i + 1; j < len(specs); j++ {
@@ -1449,6 +1462,13 @@ func (e *lsEnv) pickRoots() []string {
 		e.wantBoth = false
 		if e.r.Chance(80) {
 			return []string{"/r1", "/r2"}
+		}
+	}
+	if e.r.Chance(5) { // "<working tree>/.git" as a root: a bare repository whose name would be empty
+		for _, c := range e.existing() {
+			if e.repos[c].kind == "work" {
+				return e.r.Pick3([]string{c + "/.git", "/r2"}, []string{"/r1", c + "/.git"}, []string{c + "/.git"})
+			}
 		}
 	}
 	switch k := e.r.Intn(100); {
